@@ -159,4 +159,8 @@ def check(ctx):
     DQ = GAS + "density_DAK"
     mu = only(run(ctx, GAS + "viscosity_Sutton", opaque={DQ}), "viscosity_Sutton").value.nf
     _expect_args(ctx, "C07-e", GAS + "viscosity_Sutton:density arguments", fv.where(), mu, DQ, names + ("specific_gravity",), "viscosity uses the library's density_DAK at its own (T, p, Tpc, ppc, gamma)")
+    # ---- C07-g the Fluid facade hands these quantities out unchanged (users reach FVF and viscosity through it)
+    from .c19 import check_delegation
+
+    check_delegation(ctx, "C07-g", only={"gas_FVF", "gas_viscosity", "water_FVF", "oil_FVF"})
     ctx.floor("C07", len(ctx.obligs), 11, "consistency obligations")
